@@ -25,8 +25,8 @@ from vlib import run_tlc, tlc_must_pass
 LEVEL = "exploration"
 DEADLINE = 20
 RERUN_DEADLINE = 60
-QUICK_TARGET = 4000
-THOROUGH_D2_MOD = 3
+QUICK_TARGET = 3000
+THOROUGH_MOD = {"tlc-d2": 4, "tlc-d1": 2}
 
 
 def tlc_explore(ctx, cfg, what):
@@ -53,21 +53,25 @@ def select(ctx, corpus, tlc_texts, idx):
     frozen = F.load_hashes()
     chosen = collections.OrderedDict()
     fresh = 0
+    skipped = 0
     for t in tlc_texts:
         h = F.shash(t)
-        if h in frozen:
+        if frozen.get(h) == "dropped":
+            skipped += 1        # left out at freeze time: needs seconds on the unchanged tree (deadline verdict would depend on load)
+        elif h in frozen:
             chosen[h] = {"h": h, "sql": t, "src": frozen[h]}
         else:  # reached by TLC but not frozen (spec or seeds changed): run it, strictly
             chosen[h] = {"h": h, "sql": t, "src": "tlc-fresh"}
             fresh += 1
     if ctx.tier == "thorough":
-        # everything frozen, except that the (large) depth-2 family is run one residue class of THOROUGH_D2_MOD per run
-        r = ctx.seed % THOROUGH_D2_MOD
+        # everything frozen, except that the two large TLC families are run one residue class (THOROUGH_MOD) per run
         out = collections.OrderedDict()
         for c in list(chosen.values()) + corpus:
-            if c["src"] == "tlc-d2" and int(c["h"], 16) % THOROUGH_D2_MOD != r and c["h"] not in idx:
+            m = THOROUGH_MOD.get(c["src"])
+            if m and int(c["h"], 16) % m != ctx.seed % m and c["h"] not in idx:
                 continue
             out.setdefault(c["h"], c)
+        ctx.set("tlc_statements_skipped_as_dropped_at_freeze", skipped)
         return list(out.values()), fresh
     # quick: a residue class of the TLC statements + of the frozen list, every light seed, 2 listed inputs per class
     tl = list(chosen.values())
@@ -89,6 +93,7 @@ def select(ctx, corpus, tlc_texts, idx):
         hs = sorted((h for h in e["inputs"] if h in byh2), key=lambda h: (e.get("ms", {}).get(h, 0), h))
         for h in hs[:1 if cls.startswith("hang") else 2]:
             out.setdefault(h, byh2[h])
+    ctx.set("tlc_statements_skipped_as_dropped_at_freeze", skipped)
     return list(out.values()), fresh
 
 
